@@ -23,16 +23,25 @@ RULE = ("case = (declaration context, ctype T denoted by a C07-grammar type stri
 ASSUMPTIONS = ["x is read as an abstract declarator applied to T as if T were a typedef name (C 6.7.7); "
                "when that type does not exist in C / cffi (function returning array, array of "
                "incomplete type, a bare function type) nothing is demanded",
+               "directly nested grouping parentheses '((' in x are generated rarely and their rejection by the "
+               "C parser of the compiled FFI is only counted (it rejects them in any type string: recorded "
+               "C07 finding nested-grouping-parens); the in-line FFI must handle them",
+               "the in-line FFI runs pycparser per new string: it gets the plain name and the first "
+               "NSUF_INLINE declarator texts of each type, the compiled FFI all NSUF",
+               "gcc is asked only about ctypes that are C types: not when the source string is rejected by "
+               "gcc as a parameter declaration, nor when a function type in T has a 'void' parameter "
+               "among others (both parsers accept that; C07 ill-formed-string classes)",
                "argument types inside x come from a fixed parenthesis-free pool; their own parsing is C07's business",
                "gcc probe: objects larger than 4096 bytes and incomplete types are declared 'extern' "
                "(acceptance of the declaration is still checked; sizeof only for complete types)"]
-NSUF = 8
+NSUF = 8                # declarator texts per type on the compiled FFI
+NSUF_INLINE = 3         # ... of which on the in-line FFI (each costs a pycparser run)
 SAN_DECIDES = False     # see judge(): only reports in the name-building path decide
 
 
 def generate(ctx):
     rng = ctx.rng('gen')
-    nctx = ctx.scale(30, 1000)
+    nctx = ctx.scale(20, 300)
     per = 2
     seeds = [rng.getrandbits(40) for _ in range(nctx)]
     return None, [{'seeds': seeds[i:i + per], 'ntypes': 100} for i in range(0, nctx, per)]
@@ -212,6 +221,15 @@ def tkind(t):
     return k
 
 
+def has_void_param(t):
+    if t.kind in ('pointer', 'array'):
+        return has_void_param(t.item)
+    if t.kind == 'function':
+        return has_void_param(t.result) or any(a.kind == 'void' or has_void_param(a)
+                                               for a in t.args)
+    return False
+
+
 def child_case(st, case):
     import importlib
     from cffi import FFI
@@ -277,6 +295,10 @@ def child_case(st, case):
             rep.stat('types')
             if ts[0] is ts[1]:
                 rep.stat('types_shared_by_both_ffis')
+            elif ffi1.getctype(ts[0]) != ffi2.getctype(ts[1]):
+                # in-line: aggregate displayed under its typedef name (recorded C11 finding);
+                # each name must still round-trip on its own FFI, and gcc takes both
+                rep.stat('plain_name_differs_between_ffis')
             r2 = random.Random(seed * 1000003 + ti)
             xs = ['']
             for j in range(NSUF):
@@ -285,7 +307,7 @@ def child_case(st, case):
             for (label, f, interp), T in zip(ffis, ts):
                 kd = tkind(T)
                 rep.stat('T_' + kd)
-                for x in xs:
+                for x in (xs if label == 'compiled' else xs[:1 + NSUF_INLINE]):
                     xt = r2.choice(['', '', ' ']) + x + r2.choice(['', '', ' ', '\t'])
                     det = [seed, ti]
                     key = (seed, T.cname, label, x)
@@ -335,6 +357,10 @@ def child_case(st, case):
                         rep.bad('reparse-other-type:' + cls, '%s: getctype -> %r re-parses to %r, '
                                 'expected %r' % (where, name, got, expected), det)
                 # (c) a declaration for gcc
+                if has_void_param(T):
+                    # 'f(int, void)' is taken by both parsers but is not a C type
+                    rep.stat('gcc_skipped_T_has_a_void_parameter')
+                    continue
                 var = 'v_%d_%s' % (ti, label[0])
                 try:
                     line = f.getctype(T, var)
@@ -377,7 +403,7 @@ def judge(ctx, setup, case, obs):
         DECLS.setdefault((int(seed), case['ntypes']), []).extend(lines)
 
 
-def probe(tmp, prelude, lines):
+def probe(tmp, prelude, lines, retry=True):
     """compile the declarations after `prelude`, run, return (sizes, rejected {k: message});
     sizes is None when gcc rejects something else than one of the declarations.  Keys
     3000000+k of rejected: the *source* type string of T is itself not valid C."""
@@ -404,6 +430,8 @@ def probe(tmp, prelude, lines):
         for m in re.finditer(r':([123]\d{6}):\d+: error: (.*)', msg):
             n = int(m.group(1))
             rejected.setdefault(n if n >= 3000000 else n % 1000000, m.group(2))
+        if not retry and rejected:
+            return {}, rejected
         if attempt or not rejected:
             return None, {'compile': msg[-1500:]}
     return None, rejected
@@ -420,7 +448,7 @@ def finalize(ctx, setup):
         src = make_ctx(seed).c_source()
         internal = [ln for ln in lines if INTERNAL.search(ln[4])]
         return (probe(ctx.tmp, COMPLEX_TD + src, lines),
-                probe(ctx.tmp, '#define __cdecl\n#define __stdcall\n' + src, internal) if internal else None)
+                probe(ctx.tmp, '#define __cdecl\n#define __stdcall\n' + src, internal, False) if internal else None)
     with cf.ThreadPoolExecutor(8) as ex:
         results = list(ex.map(work, todo))
     for ((seed, ntypes), lines), ((sizes, rejected), internal) in zip(todo, results):
@@ -433,6 +461,8 @@ def finalize(ctx, setup):
             rp = {'seeds': [seed], 'ntypes': ntypes, 'only': ti}
             if 3000000 + k in rejected:
                 ctx.count('gcc_skipped_source_string_is_not_valid_c')
+                ctx.note('not valid C (so its ctype is not given to gcc): %r: %s' %
+                         (s, rejected[3000000 + k]))
                 continue
             ctx.case((seed, var), True, sample={'declaration': line, 'sizeof': size})
             if k in rejected:
